@@ -28,7 +28,7 @@ META = {
     "rule": "one run = one (spec, settings, random seed) executed in two forked sibling processes under two different environment perturbations (clock, heap layout, GC, identity-hash order); non-trivial = both siblings emitted >=1 solution and the perturbations differ in >=2 dimensions; distinct = distinct event-log digests",
     "state_measure": "(h, r, settings class, which perturbation dimensions differ)",
     "components": {"real": ["everything used by Fandango(...), fuzz(), parse() in both siblings"], "stub": ["clock (perturbed on purpose)", "identity-hash order of grammar nodes / parties (seeded permutation instead of addresses)"]},
-    "expected_probes": ["clock_jump_backwards", "gc_disabled", "gc_aggressive", "heap_noise", "hash_permutation_differs", "both_emitted", "parse_back_compared"],
+    "expected_probes": ["fresh_interpreter_pair", "clock_jump_backwards", "gc_disabled", "gc_aggressive", "heap_noise", "hash_permutation_differs", "both_emitted", "parse_back_compared"],
     "bounds": {"solutions": "<= 8", "generations": "<= 8", "population": "<= 20"},
     "assumptions": ["both siblings are forks of one warmed interpreter with the same PYTHONHASHSEED (the thorough tier repeats a subset in genuinely fresh interpreters)"],
 }
@@ -58,6 +58,8 @@ class JitterClock:
 def _workload(text, extra, settings, seed, n_sol, gens, pert):
     boot.reset_process_globals()
     boot.reset_serials(pert["hash_perm"])
+    # a fresh process starts with an arbitrary PRNG state: the siblings get two different ones
+    random.seed(pert["prng_init"])
     boot.CLOCK.active = JitterClock(pert["origin"], pert["rate"], pert["jumps"])
     noise = [bytearray(k) for k in pert["noise"]]
     if pert["gc"] == "off":
@@ -67,13 +69,13 @@ def _workload(text, extra, settings, seed, n_sol, gens, pert):
     try:
         f = fresh_spec(text)
         sols = f.fuzz(extra_constraints=list(extra) or None, desired_solutions=n_sol, max_generations=gens, random_seed=seed, **settings)
-        out = {"solutions": [str(s) for s in sols], "trees": [deriv.to_model(s) for s in sols], "parses": []}
+        out = {"solutions": [str(s) for s in sols], "trees": [repr(deriv.to_model(s)) for s in sols], "parses": []}
         words = out["solutions"][:3] + [w[:-1] + "~" for w in out["solutions"][:1]] + ["", "0:0:a:||"]
         for w in words:
             try:
                 trees = []
                 for t in f.parse(w):
-                    trees.append(deriv.to_model(t))
+                    trees.append(repr(deriv.to_model(t)))
                     if len(trees) >= 4:
                         break
                 out["parses"].append((w, trees))
@@ -94,7 +96,58 @@ def _draw_pert(ch, tag):
         "noise": [ch.pick([16, 1000, 50_000, 3], "sched", tag + "-noise-size") for _ in range(ch.pick([0, 7, 100, 1001], "sched", tag + "-noise-n"))],
         "gc": ch.pick(["default", "off", "aggressive"], "sched", tag + "-gc"),
         "hash_perm": ch.pick([0, 1, 7, 12345], "sched", tag + "-perm"),
+        "prng_init": 1000 + ch.draw(1000, "sched", tag + "-prng-init") + (0 if tag == "a" else 5000),
     }
+
+
+def child_main():
+    """Entry point of a genuinely fresh interpreter: job on stdin (JSON), result on stdout."""
+    import json
+    import sys
+
+    job = json.loads(sys.stdin.read())
+    boot.boot()
+    try:
+        res = ("ok", _workload(job["text"], job["extra"], job["settings"], job["seed"], job["n_sol"], job["gens"], job["pert"]))
+    except BaseException as e:  # noqa
+        res = ("exc", "%s: %s" % (type(e).__name__, e))
+    sys.__stdout__.write("RESULT " + json.dumps(res) + "\n")
+    sys.__stdout__.flush()
+
+
+def _in_fresh_interpreter(job, hashseed):
+    import json
+    import os
+    import subprocess
+    import sys
+
+    env = dict(os.environ)
+    env["PYTHONHASHSEED"] = hashseed
+    env["VERIF_HASHSEED"] = hashseed
+    env["VERIF_BOOTED"] = "1"
+    env["PYTHONDONTWRITEBYTECODE"] = "1"
+    code = "import sys; sys.path.insert(0, %r); from sims import reprosim; reprosim.child_main()" % boot.VERIF_DIR
+    return subprocess.Popen([sys.executable, "-B", "-c", code], stdin=subprocess.PIPE, stdout=subprocess.PIPE, stderr=subprocess.DEVNULL, env=env, text=True), json.dumps(job)
+
+
+def _run_pair_fresh(jobs, hashseed):
+    import json
+
+    procs = [_in_fresh_interpreter(j, hashseed) for j in jobs]
+    outs = []
+    for (p_, data) in procs:
+        try:
+            so, _ = p_.communicate(data, timeout=240)
+        except Exception:
+            p_.kill()
+            so = ""
+        res = ("exc", "no result from fresh interpreter")
+        for line in so.splitlines():
+            if line.startswith("RESULT "):
+                r_ = json.loads(line[7:])
+                res = (r_[0], r_[1])
+        outs.append(res)
+    return outs
 
 
 def run(run: Run) -> None:
@@ -103,7 +156,7 @@ def run(run: Run) -> None:
     text = spec.to_fan()
     prewarm(text)
     run.event("spec", text)
-    seed = 1 + ch.draw(10_000, "work", "random-seed")
+    seed = ch.draw(10_000, "work", "random-seed")  # 0 is a seed like any other
     n_sol = ch.rng_range(2, 8, "work", "n-sol")
     gens = ch.pick([4, 2, 8], "work", "gens")
     settings = dict(population_size=ch.pick([8, 3, 20], "cfg", "population"), max_nodes=ch.pick([40, 20, 80], "cfg", "max_nodes"), mutation_rate=ch.pick([0.2, 0.8], "cfg", "mut"), crossover_rate=ch.pick([0.8, 0.3], "cfg", "cx"), destruction_rate=ch.pick([0.0, 0.3], "cfg", "destr"))
@@ -123,8 +176,16 @@ def run(run: Run) -> None:
     run.op("spec h=%d r=%d; seed=%d n=%d gens=%d settings=%s" % (spec.h, spec.r, seed, n_sol, gens, sorted(settings.items())))
     run.op("sibling A: %s" % {k: (v if k != "noise" else len(v)) for k, v in pa.items()})
     run.op("sibling B: %s" % {k: (v if k != "noise" else len(v)) for k, v in pb.items()})
-    ra = in_child(lambda: _workload(text, spec.extra_constraints, settings, seed, n_sol, gens, pa))
-    rb = in_child(lambda: _workload(text, spec.extra_constraints, settings, seed, n_sol, gens, pb))
+    fresh = ch.coin(cfg.get("fresh_rate", 0.25), "cfg", "fresh-interpreters")
+    if fresh:
+        run.probe("fresh_interpreter_pair")
+        hs = ch.pick(["0", "1", "4242"], "cfg", "pair-hashseed")  # equal within the pair
+        jobs = [{"text": text, "extra": list(spec.extra_constraints), "settings": settings, "seed": seed, "n_sol": n_sol, "gens": gens, "pert": p_} for p_ in (pa, pb)]
+        ra, rb = _run_pair_fresh(jobs, hs)
+        run.op("two genuinely fresh interpreters, PYTHONHASHSEED=%s" % hs)
+    else:
+        ra = in_child(lambda: _workload(text, spec.extra_constraints, settings, seed, n_sol, gens, pa))
+        rb = in_child(lambda: _workload(text, spec.extra_constraints, settings, seed, n_sol, gens, pb))
     run.steps = 2
     if ra[0] != "ok" or rb[0] != "ok":
         run.event("child", ra[0], rb[0])
@@ -147,7 +208,7 @@ def run(run: Run) -> None:
     if a["solutions"] != b["solutions"] or a["trees"] != b["trees"]:
         # which single dimension explains it?  re-run B with one dimension of A at a time
         channel = "unlocalised"
-        for d in dims:
+        for d in ([] if fresh else dims):
             pc = dict(pb)
             pc[d] = pa[d]
             rc = in_child(lambda pc=pc: _workload(text, spec.extra_constraints, settings, seed, n_sol, gens, pc))
